@@ -123,7 +123,9 @@ def build_value(spec, cache):
     raise ValueError(spec)
 
 
-STRS = ["", "a", "b", "ab", "A", "x.y.z", "<b>&amp;</b>", "é", "日本", "a | b", "0", "1", "10", "9", "None", "True", " ", "​", "𝔘"]
+STRS = ["", "a", "b", "ab", "A", "x.y.z", "<b>&amp;</b>", "é", "日本", "a | b", "0", "1", "10", "9", "None", "True", " ", "​", "𝔘",
+        # digits that are not decimal digits (superscript, circled, subscript, fraction), digits of another script, format characters
+        "²", "①", "10²", "2³", "x1₂", "½", "٣", "shard 9", "shard 10", "{shard}", "{0}", "{}", "}{", "a{b", "100%", "%d %s", "%(x)s"]
 
 
 def gen_atom(rng, flavour):
@@ -1046,6 +1048,8 @@ def sort_case(items, has_fallback):
             real = ("fallback" if used else "natural") + "".join(f" {j}" for _, j in res)
         except TypeError:
             real = "raise"
+        except Exception as e:      # noqa: BLE001 - any other exception of the sort is as fatal for the update thread
+            real = "raise " + type(e).__name__
     finally:
         if old is not None:
             spo._fallback_sort_key = old
@@ -1065,10 +1069,10 @@ def diff_sort(ctx, rng, n, has_fallback):
         want.append(real)
         cases.append(items)
     dis, viol = [], []
-    stats = {"sort_cases": n, "sort_fallback_path": sum(w.startswith("fallback") for w in want), "sort_raise": sum(w == "raise" for w in want)}
+    stats = {"sort_cases": n, "sort_fallback_path": sum(w.startswith("fallback") for w in want), "sort_raise": sum(w.startswith("raise") for w in want)}
     for items, w in zip(cases, want):
-        if w == "raise":
-            viol.append({"property": PROP, "what": "sorted_scope_items raises TypeError on scopes that are hashable and equatable",
+        if w.startswith("raise"):
+            viol.append({"property": PROP, "what": f"sorted_scope_items raises {w[6:] or 'TypeError'} on scopes that are hashable and equatable",
                          "kind": "sort", "items": items})
             break
     if ctx.driver is not None:
@@ -1414,7 +1418,7 @@ def replay(ctx, payload):
     w = payload.get("witness", payload)
     if w.get("kind") == "sort":
         _, real = sort_case(w["items"], True)
-        return "sorted_scope_items raises TypeError" if real == "raise" else None
+        return f"sorted_scope_items raises {real[6:] or 'TypeError'}" if real.startswith("raise") else None
     if w.get("kind") == "storm":
         for _ in range(4):
             v = run_insert_storm(w["observer"])
